@@ -241,6 +241,13 @@ func (m *UDPMuxDefault) RemoveConnByUfrag(ufrag string) {
 		return
 	}
 
+	// Stop the removed connections first: a connection that is still open would
+	// re-bind every address it writes to, and nothing would ever remove those
+	// bindings again.
+	for _, c := range removedConns {
+		_ = c.Close()
+	}
+
 	m.addressMapMu.Lock()
 	defer m.addressMapMu.Unlock()
 
@@ -484,6 +491,11 @@ func (m *UDPMuxDefault) registerConnForAddress(conn *udpMuxedConn, addr netip.Ad
 
 	m.addressMapMu.Lock()
 	defer m.addressMapMu.Unlock()
+
+	// A write racing with the removal of conn must not leave a binding behind.
+	if conn.isClosed() {
+		return
+	}
 
 	existing, ok := m.addressMap[addr]
 	if ok {
